@@ -739,7 +739,7 @@ pub fn check(case: &Case, obs: &mut Obs) {
         if let Ok(b2) = model.second_virial_coefficient(Temperature::from_reduced(t), Some(&m2)) {
             let s_b: f64 = bc_lib.iter().map(|(_, v)| v.abs()).sum();
             if b.is_finite() {
-                obs.close_scaled("B independent of the total amount", b, b2.to_reduced(), 1e-12, s_b);
+                obs.close_scaled("B independent of the total amount", b, b2.to_reduced(), 1e-9, s_b);
             }
         }
     }
